@@ -90,3 +90,151 @@ theorem binding_stable_run (key ty v : Nat) : ∀ (ops : List COp) (c : C2), c.g
     exact hl o (by simp [ho])
 
 end GojaModel.C13
+
+namespace GojaModel.C13
+
+/-- a cache write that does not bind (key, ty) does not change what (key, ty) is bound to — bound or not -/
+theorem getTyped_step_other (c : C2) (key ty : Nat) (op : COp) (hl : op.leaves key ty c.et = true) :
+    (c.step op).getTyped key ty = c.getTyped key ty := by
+  cases op with
+  | put k x =>
+    simp only [COp.leaves, Bool.not_eq_true', Bool.and_eq_false_iff, beq_eq_false_iff_ne] at hl
+    simp only [C2.step, C2.put]
+    by_cases hk : key = k
+    · subst hk
+      have hne : c.et key ≠ ty := by
+        rcases hl with hl | hl
+        · exact absurd rfl hl
+        · exact hl
+      cases hc : c.cache key with
+      | none => simp [getTyped_setCache, C2.getTyped, hc, hne]
+      | some e =>
+        cases e with
+        | raw old => simp [getTyped_setCache, C2.getTyped, hc, hne]
+        | items tbl => simp [getTyped_setCache, C2.getTyped, hc, tblGet_cons, hne]
+    · cases hc : c.cache k with
+      | none => simp only [getTyped_setCache, hk, if_false]
+      | some e => cases e <;> simp only [getTyped_setCache, hk, if_false]
+  | putTyped k t x =>
+    simp only [COp.leaves, Bool.not_eq_true', Bool.and_eq_false_iff, beq_eq_false_iff_ne] at hl
+    simp only [C2.step, C2.putTyped]
+    by_cases hk : key = k
+    · subst hk
+      have hne : t ≠ ty := by
+        rcases hl with hl | hl
+        · exact absurd rfl hl
+        · exact hl
+      cases hc : c.cache key with
+      | none => simp [getTyped_setCache, C2.getTyped, hc, tblGet_cons, hne, tblGet_nil]
+      | some e =>
+        cases e with
+        | raw old =>
+          simp only [getTyped_setCache, if_true, tblGet_cons, hne, if_false, tblGet_nil, C2.getTyped, hc]
+        | items tbl => simp [getTyped_setCache, C2.getTyped, hc, tblGet_cons, hne]
+    · cases hc : c.cache k with
+      | none => simp only [getTyped_setCache, hk, if_false]
+      | some e => cases e <;> simp only [getTyped_setCache, hk, if_false]
+
+theorem put_getTyped_self (c : C2) (key v : Nat) : (c.put key v).getTyped key (c.et key) = some v := by
+  unfold C2.put
+  cases hc : c.cache key with
+  | none => simp [getTyped_setCache]
+  | some e => cases e <;> simp [getTyped_setCache, tblGet_cons]
+
+theorem putTyped_getTyped_self (c : C2) (key ty v : Nat) : (c.putTyped key ty v).getTyped key ty = some v := by
+  unfold C2.putTyped
+  cases hc : c.cache key with
+  | none => simp [getTyped_setCache, tblGet_cons]
+  | some e => cases e <;> simp [getTyped_setCache, tblGet_cons]
+
+/-! ### the two-level table implements a finite map keyed by (object, type code)
+
+  code 0 = the untyped export (ctx.get / ctx.put, bound under the object's exportType), code t+1 = destination type
+  `tyOf t` (ctx.getTyped / ctx.putTyped).  A typed destination whose type IS the object's exportType never occurs as a
+  typed code: toReflectValue takes the AssignableTo path for it (ExportTo.lean `normTy`). -/
+
+def C2.lookupK (c : C2) (tyOf : Nat → Nat) (k : Nat × Nat) : Option Nat :=
+  if k.2 = 0 then c.get k.1 else c.getTyped k.1 (tyOf (k.2 - 1))
+
+def C2.writeK (c : C2) (tyOf : Nat → Nat) (k : Nat × Nat) (a : Nat) : C2 :=
+  if k.2 = 0 then c.put k.1 a else c.putTyped k.1 (tyOf (k.2 - 1)) a
+
+def assocLookup (k : Nat × Nat) : List ((Nat × Nat) × Nat) → Option Nat
+  | [] => none
+  | (k', a) :: rest => if k' = k then some a else assocLookup k rest
+
+theorem writeK_et (c : C2) (tyOf : Nat → Nat) (k : Nat × Nat) (a : Nat) : (c.writeK tyOf k a).et = c.et := by
+  unfold C2.writeK
+  split
+  · exact step_et c (.put k.1 a)
+  · exact step_et c (.putTyped k.1 (tyOf (k.2 - 1)) a)
+
+theorem lookupK_writeK (c : C2) (tyOf : Nat → Nat) (hinj : ∀ s t, tyOf s = tyOf t → s = t)
+    (hty : ∀ id t, tyOf t ≠ c.et id) (k : Nat × Nat) (a : Nat) (k' : Nat × Nat) :
+    (c.writeK tyOf k a).lookupK tyOf k' = if k = k' then some a else c.lookupK tyOf k' := by
+  have het := writeK_et c tyOf k a
+  obtain ⟨id, cd⟩ := k
+  obtain ⟨id', cd'⟩ := k'
+  by_cases hkk : (id, cd) = (id', cd')
+  · cases hkk
+    simp only [if_true]
+    unfold C2.lookupK C2.writeK
+    by_cases h0 : cd = 0
+    · simp only [h0, if_true]
+      rw [C2.get_eq_getTyped, step_et c (.put id a)]
+      exact put_getTyped_self c id a
+    · simp only [h0, if_false]
+      exact putTyped_getTyped_self c id (tyOf (cd - 1)) a
+  · simp only [hkk, if_false]
+    -- the type under which k' is bound, and the operation that was executed
+    unfold C2.lookupK
+    have hop : c.writeK tyOf (id, cd) a = c.step (if cd = 0 then COp.put id a else COp.putTyped id (tyOf (cd - 1)) a) := by
+      unfold C2.writeK; by_cases h0 : cd = 0 <;> simp [h0, C2.step]
+    by_cases h0' : cd' = 0
+    · simp only [h0', if_true]
+      rw [C2.get_eq_getTyped, C2.get_eq_getTyped, het, hop]
+      apply getTyped_step_other
+      by_cases h0 : cd = 0
+      · simp only [h0, if_true, COp.leaves, Bool.not_eq_true', Bool.and_eq_false_iff, beq_eq_false_iff_ne]
+        left; intro e; subst e; exact hkk (by rw [h0, h0'])
+      · simp only [h0, if_false, COp.leaves, Bool.not_eq_true', Bool.and_eq_false_iff, beq_eq_false_iff_ne]
+        right; exact hty id' (cd - 1)
+    · simp only [h0', if_false]
+      rw [hop]
+      apply getTyped_step_other
+      by_cases h0 : cd = 0
+      · simp only [h0, if_true, COp.leaves, Bool.not_eq_true', Bool.and_eq_false_iff, beq_eq_false_iff_ne]
+        by_cases hid : id = id'
+        · right; subst hid; exact fun e => hty id (cd' - 1) e.symm
+        · left; exact hid
+      · simp only [h0, if_false, COp.leaves, Bool.not_eq_true', Bool.and_eq_false_iff, beq_eq_false_iff_ne]
+        by_cases hid : id = id'
+        · right
+          intro e
+          have := hinj _ _ e
+          apply hkk
+          subst hid
+          have : cd = cd' := by omega
+          rw [this]
+        · left; exact hid
+
+/-- after any sequence of writes the two-level table answers every (object, type code) lookup exactly like the
+    association list of the writes (latest first) -/
+theorem c2_implements_keyed_map (tyOf : Nat → Nat) (hinj : ∀ s t, tyOf s = tyOf t → s = t) :
+    ∀ (ws : List ((Nat × Nat) × Nat)) (c : C2), (∀ id t, tyOf t ≠ c.et id) →
+      ∀ (A : List ((Nat × Nat) × Nat)), (∀ k, c.lookupK tyOf k = assocLookup k A) →
+      ∀ k, (ws.foldl (fun c w => c.writeK tyOf w.1 w.2) c).lookupK tyOf k =
+           assocLookup k (ws.foldl (fun A w => w :: A) A)
+  | [], _, _, _, hR, k => hR k
+  | (key, a) :: ws, c, hty, A, hR, k => by
+    simp only [List.foldl]
+    apply c2_implements_keyed_map tyOf hinj ws (c.writeK tyOf key a)
+      (by intro id t; rw [writeK_et]; exact hty id t) ((key, a) :: A)
+    intro k'
+    rw [lookupK_writeK c tyOf hinj hty key a k']
+    simp only [assocLookup]
+    split
+    · rfl
+    · exact hR k'
+
+end GojaModel.C13
